@@ -12,6 +12,6 @@ for id in $ids; do
   out=$(VERIF_REPO=$wt VERIF_SCRATCH_OUT=/tmp/seed-out ./check $prop --tier quick 2>&1 | grep -m1 VIOLATION)
   if [ -n "$out" ]; then echo "$id caught: ${out:0:90}"; else echo "$id MISSED"; fi
   h=$(python3 -c "import hashlib,sys;print(hashlib.sha1(sys.argv[1].encode()).hexdigest()[:8])" $wt)
-  rm -rf /verif/harness/target-$h
+  rm -rf /verif/harness/target-$h /verif/harness/m-$h
   git -C /repo worktree remove --force $wt >/dev/null 2>&1
 done
